@@ -7,6 +7,7 @@ import (
 	"fmt"
 	"go/token"
 	"go/types"
+	"sort"
 	"strings"
 
 	"golang.org/x/tools/go/ssa"
@@ -150,11 +151,7 @@ func (fr *Frame) siteCall(c *ssa.CallCommon, pos token.Pos, args []Val, before b
 		return
 	}
 	name := calleeName(c)
-	key := "call " + name
-	if before {
-		fr.siteCnt[key]++
-	}
-	ord := fr.siteCnt[key]
+	ord := fr.siteOrdinals()[c]
 	for i := range ct.Sites {
 		sc := &ct.Sites[i]
 		if sc.Kind != "call" || sc.Target != name || (sc.Ord != 0 && sc.Ord != ord) {
@@ -265,11 +262,7 @@ func (fr *Frame) siteStore(in *ssa.Store, p, v Val, before bool) {
 		return
 	}
 	name := fieldName(fa.X.Type().Underlying().(*types.Pointer).Elem(), fa.Field)
-	key := "store " + name
-	if before {
-		fr.siteCnt[key]++
-	}
-	ord := fr.siteCnt[key]
+	ord := fr.siteOrdinals()[in]
 	for i := range ct.Sites {
 		sc := &ct.Sites[i]
 		if sc.Kind != "store" || sc.Target != name || (sc.Ord != 0 && sc.Ord != ord) {
@@ -287,3 +280,49 @@ func (fr *Frame) siteStore(in *ssa.Store, p, v Val, before bool) {
 }
 
 func (fr *Frame) siteMapUpdate(in *ssa.MapUpdate, before bool) {}
+
+// siteOrdinals numbers call sites per callee name and store sites per field
+// name in SOURCE order (position), independent of the traversal order.
+func (fr *Frame) siteOrdinals() map[interface{}]int {
+	if fr.siteOrd != nil {
+		return fr.siteOrd
+	}
+	type site struct {
+		key  interface{}
+		name string
+		pos  token.Pos
+		seq  int
+	}
+	var sites []site
+	seq := 0
+	for _, b := range fr.fn.Blocks {
+		for _, in := range b.Instrs {
+			seq++
+			switch x := in.(type) {
+			case ssa.CallInstruction:
+				p := x.Pos()
+				if p == token.NoPos {
+					p = x.Common().Pos()
+				}
+				sites = append(sites, site{x.Common(), "call " + calleeName(x.Common()), p, seq})
+			case *ssa.Store:
+				if fa, ok := x.Addr.(*ssa.FieldAddr); ok {
+					sites = append(sites, site{x, "store " + fieldName(fa.X.Type().Underlying().(*types.Pointer).Elem(), fa.Field), x.Pos(), seq})
+				}
+			}
+		}
+	}
+	sort.SliceStable(sites, func(i, j int) bool {
+		if sites[i].pos != sites[j].pos {
+			return sites[i].pos < sites[j].pos
+		}
+		return sites[i].seq < sites[j].seq
+	})
+	fr.siteOrd = map[interface{}]int{}
+	cnt := map[string]int{}
+	for _, s := range sites {
+		cnt[s.name]++
+		fr.siteOrd[s.key] = cnt[s.name]
+	}
+	return fr.siteOrd
+}
